@@ -423,12 +423,19 @@ package yqlib
 // "readonly-if context.DontAutoCreate" (C08); the standing assumption of C08 is that the expression being
 // evaluated contains only operators of that set (the property's own hypothesis).
 
+// lastEvalOut / prevEvalOut: the result lists of the last and the last-but-one evaluation that returned without
+// error (a two-place ghost log: the combinators' laws are stated over it, C01).
+//@ ghostvar lastEvalOut Int list
+//@ ghostvar prevEvalOut Int list
+
 //@ func (*dataTreeNavigator).GetMatchingNodes
 //@   trusted
 //@   requires validCtx(context)
 //@   readonly-if context.DontAutoCreate
+//@   modifies lastEvalOut, prevEvalOut
 //@   ensures implies(result1 == nil, validCtx(result0))
 //@   ensures @stays-read-only implies(result1 == nil && context.DontAutoCreate, result0.DontAutoCreate)
+//@   ensures @log implies(result1 == nil, lastEvalOut == result0.MatchingNodes && prevEvalOut == old(lastEvalOut))
 
 // ---------------------------------------------------------------------------------------------
 // operator_traverse_path.go
@@ -981,3 +988,44 @@ package yqlib
 //@   loop 2:
 //@     invariant relativeFirstNumber <= i && len(newResults) == i - relativeFirstNumber && implies(relativeFirstNumber < relativeSecondNumber, i <= relativeSecondNumber) && implies(relativeFirstNumber >= relativeSecondNumber, i == relativeFirstNumber) && freshSlice(newResults)
 //@     invariant forall(j, 0, len(newResults), newResults[j] == lhsNode.Content[relativeFirstNumber + j])
+
+// ---------------------------------------------------------------------------------------------
+// operator_pipe.go, operator_union.go: the stream combinators (C01)
+
+//@ func pipeOperator
+//@   props C01 C08 C11
+//@   requires d != nil && validCtx(context) && expressionNode != nil && expressionNode.LHS != nil && expressionNode.RHS != nil && expressionNode.LHS.Operation != nil
+//@   readonly-if context.DontAutoCreate
+//@   modifies lastEvalOut, prevEvalOut
+//@   at GetMatchingNodes#1: assert @lhs-on-the-input {C01} arg1.MatchingNodes == context.MatchingNodes && arg1.DontAutoCreate == context.DontAutoCreate && arg2 == expressionNode.LHS
+//@   at GetMatchingNodes#2: assert @rhs-on-the-lhs-results {C01} arg1.MatchingNodes == lastEvalOut && arg1.DontAutoCreate == context.DontAutoCreate && arg2 == expressionNode.RHS
+//@   ensures @result-is-the-rhs-result {C01} implies(result1 == nil && expressionNode.LHS.Operation.OperationType != assignVariableOpType, result0.MatchingNodes == lastEvalOut && result0.DontAutoCreate == context.DontAutoCreate)
+
+// the "LHS as $x | RHS" form; not under contract yet (assumed)
+//@ func variableLoop
+//@   trusted
+//@   readonly-if context.DontAutoCreate
+//@   modifies lastEvalOut, prevEvalOut
+
+//@ func unionOperator
+//@   props C01 C08 C11
+//@   requires d != nil && validCtx(context) && expressionNode != nil && expressionNode.LHS != nil && expressionNode.RHS != nil && expressionNode.RHS.Operation != nil && expressionNode.RHS.Operation.OperationType != nil
+//@   readonly-if context.DontAutoCreate
+//@   modifies lastEvalOut, prevEvalOut
+//@   at GetMatchingNodes#1: assert @lhs-on-the-input {C01} arg1.MatchingNodes == context.MatchingNodes && arg1.DontAutoCreate == context.DontAutoCreate && arg2 == expressionNode.LHS
+//@   at GetMatchingNodes#2: assert @rhs-on-the-input {C01} arg1.MatchingNodes == context.MatchingNodes && arg1.DontAutoCreate == context.DontAutoCreate && arg2 == expressionNode.RHS
+//@   ensures @lhs-results-first {C01} implies(result1 == nil, result0.MatchingNodes != nil && fresh(result0.MatchingNodes) && forall(k, 0, len(prevEvalOut), listAt(result0.MatchingNodes, k) == listAt(prevEvalOut, k)))
+//@   ensures @then-rhs-results {C01} implies(result1 == nil && prevEvalOut != lastEvalOut, len(result0.MatchingNodes) == len(prevEvalOut) + len(lastEvalOut) && forall(k, 0, len(lastEvalOut), listAt(result0.MatchingNodes, len(prevEvalOut) + k) == listAt(lastEvalOut, k)))
+//@   ensures @then-rhs-results-when-both-return-the-same-list {C01} implies(result1 == nil && prevEvalOut == lastEvalOut, len(result0.MatchingNodes) == len(prevEvalOut) + len(lastEvalOut))
+//@   loop 1:
+//@     invariant @position (el == nil && iter() == len(lhs.MatchingNodes)) || (el != nil && elList(el) == lhs.MatchingNodes && elIdx(el) == iter())
+//@     invariant @copied fresh(results.MatchingNodes) && len(results.MatchingNodes) == iter() && forall(k, 0, iter(), listAt(results.MatchingNodes, k) == listAt(lhs.MatchingNodes, k))
+//@     invariant nodeList(lhs.MatchingNodes) && nodeList(rhs.MatchingNodes) && lhs.MatchingNodes == prevEvalOut && rhs.MatchingNodes == lastEvalOut
+//@   loop 2:
+//@     invariant @position (el == nil && iter() == len(rhs.MatchingNodes)) || (el != nil && elList(el) == rhs.MatchingNodes && elIdx(el) == iter())
+//@     invariant @copied fresh(results.MatchingNodes) && len(results.MatchingNodes) == len(lhs.MatchingNodes) + iter() && forall(k, 0, len(lhs.MatchingNodes), listAt(results.MatchingNodes, k) == listAt(lhs.MatchingNodes, k)) && forall(k, 0, iter(), listAt(results.MatchingNodes, len(lhs.MatchingNodes) + k) == listAt(rhs.MatchingNodes, k))
+//@     invariant nodeList(lhs.MatchingNodes) && nodeList(rhs.MatchingNodes) && lhs.MatchingNodes == prevEvalOut && rhs.MatchingNodes == lastEvalOut
+
+//@ func (*Context).ToString
+//@   props C11
+//@   requires n != nil && nodeList(n.MatchingNodes)
